@@ -10,7 +10,7 @@ use quote::ToTokens;
 use serde::{Deserialize, Serialize};
 
 use crate::corpus::{self, MetaEntry};
-use crate::input::{self, Attr, InputDoc, Item};
+use crate::input::{self, Attr, InputDoc};
 use crate::model::{Abort, Conv, Leaf, Model};
 use crate::oracle::{self, fail, Failure, ObsLeaf};
 use crate::probes::Val;
